@@ -190,44 +190,96 @@ def split_block(stmts):
     raise Refused("enctype split not understood: %s" % "; ".join(ast.unparse(x) for x in stmts))
 
 
+def writes_self(node):
+    """statements below `node` that modify the rule: assignment to an attribute of self, del, self._setSeq(...),
+    self._commitHref(...)"""
+    out = []
+    for n in ast.walk(node):
+        if isinstance(n, (ast.Assign, ast.AugAssign, ast.AnnAssign)):
+            targets = n.targets if isinstance(n, ast.Assign) else [n.target]
+            for tg in targets:
+                for x in ast.walk(tg):
+                    if isinstance(x, ast.Attribute) and isinstance(x.value, ast.Name) and x.value.id == "self":
+                        out.append(n)
+        elif isinstance(n, ast.Delete):
+            out.append(n)
+        elif isinstance(n, ast.Call) and isinstance(n.func, ast.Attribute) and isinstance(n.func.value, ast.Name) \
+                and n.func.value.id == "self" and n.func.attr in ("_setSeq", "_commitHref", "_setMedia"):
+            out.append(n)
+    return out
+
+
+def nodoc(body):
+    return [x for x in body if not (isinstance(x, ast.Expr) and isinstance(x.value, ast.Constant))]
+
+
 def sethref(out):
-    fn = find_func(ast.parse(src("css/cssimportrule.py")), ["CSSImportRule", "_setHref"])
+    tree = ast.parse(src("css/cssimportrule.py"))
+    # _setHref = load, then commit
+    sh = find_func(tree, ["CSSImportRule", "_setHref"])
+    if [ast.unparse(x) for x in nodoc(sh.body)] != ["importedSheet, hrefFound = self._loadImport(href, self.media, self.name)",
+                                                    "self._commitHref(href, importedSheet, hrefFound)"]:
+        raise Refused("_setHref is not exactly `_loadImport` followed by `_commitHref`: %r"
+                      % [ast.unparse(x) for x in nodoc(sh.body)])
+    # _commitHref: plain writes
+    ch = find_func(tree, ["CSSImportRule", "_commitHref"])
+    if [a.arg for a in ch.args.args] != ["self", "href", "importedSheet", "hrefFound"]:
+        raise Refused("_commitHref signature")
+    cb = nodoc(ch.body)
+    cu = [ast.unparse(x) for x in cb]
+    if len(cb) != 4 or cu[0] != "self._href = href" or not isinstance(cb[1], ast.For) \
+            or cu[2:] != ["self.hrefFound = hrefFound", "self._styleSheet = importedSheet"]:
+        raise Refused("_commitHref: expected href, seq update, hrefFound, styleSheet; found %r" % cu)
+    for n in ast.walk(ch):
+        if isinstance(n, (ast.Try, ast.Raise, ast.Return, ast.While)):
+            raise Refused("_commitHref: control flow (line %d)" % n.lineno)
+    # _setCssText: the sheet is loaded before the rule is modified, committed after
+    sc = find_func(tree, ["CSSImportRule", "_setCssText"])
+    loads = [n for n in ast.walk(sc) if isinstance(n, ast.Call) and ast.unparse(n.func) == "self._loadImport"]
+    commits = [n for n in ast.walk(sc) if isinstance(n, ast.Call) and ast.unparse(n.func) == "self._commitHref"]
+    if len(loads) != 1 or len(commits) != 1:
+        raise Refused("_setCssText: expected one _loadImport and one _commitHref call")
+    if ast.unparse(loads[0]) != "self._loadImport(new['href'], newmedia, new['name'])" or \
+            ast.unparse(commits[0]) != "self._commitHref(new['href'], importedSheet, hrefFound)":
+        raise Refused("_setCssText: arguments of _loadImport / _commitHref")
+    early = [w for w in writes_self(sc) if w.lineno <= loads[0].lineno and w is not loads[0]]
+    if early:
+        raise Refused("_setCssText modifies the rule (line %d) before the imported sheet is loaded (line %d)"
+                      % (early[0].lineno, loads[0].lineno))
+    if commits[0].lineno < loads[0].lineno:
+        raise Refused("_setCssText commits before it loads")
+    # _loadImport: the load itself; does not touch the rule
+    fn = find_func(tree, ["CSSImportRule", "_loadImport"])
+    if [a.arg for a in fn.args.args] != ["self", "href", "media", "title"]:
+        raise Refused("_loadImport signature")
+    w = writes_self(fn)
+    if w:
+        raise Refused("_loadImport modifies the rule (line %d)" % w[0].lineno)
     tries = [n for n in ast.walk(fn) if isinstance(n, ast.Try)]
     if len(tries) != 1:
-        raise Refused("_setHref: expected one try statement")
+        raise Refused("_loadImport: expected one try statement")
     tr = tries[0]
     if len(tr.handlers) != 1 or tr.finalbody:
-        raise Refused("_setHref: try shape")
-    names = handler_names(tr.handlers[0], "_setHref")
+        raise Refused("_loadImport: try shape")
+    names = handler_names(tr.handlers[0], "_loadImport")
     out.append("Definition caught_names : list str := [%s]." % "; ".join(coq_str(n) for n in names))
-    out.append("Definition caught : list exn := [%s]." % "; ".join(exn_class(n, "_setHref except") for n in names))
+    out.append("Definition caught : list exn := [%s]." % "; ".join(exn_class(n, "_loadImport except") for n in names))
     for st in tr.handlers[0].body:
         u = ast.unparse(st)
         if not u.startswith("self._log.warn(") or "neverraise=True" not in u:
-            raise Refused("_setHref: handler does more than a never-raising warning: " + u[:80])
+            raise Refused("_loadImport: handler does more than a never-raising warning: " + u[:80])
     if len(tr.orelse) != 1:
-        raise Refused("_setHref: else branch of the try")
-    expect(tr.orelse[0], "hrefFound = True", "_setHref success flag")
-    # statements of the function around the try
-    guard = [n for n in fn.body if isinstance(n, ast.If)]
-    if len(guard) != 1:
-        raise Refused("_setHref: top-level if")
-    g = guard[0]
-    expect(g.test, "href and self.parentStyleSheet", "_setHref load condition")
-    top = [ast.unparse(x) for x in fn.body]
-    # (the imported sheet is loaded first, then href / seq / hrefFound / styleSheet are committed)
-    for need in ("self._href = href", "hrefFound = False", "self.hrefFound = hrefFound", "self._styleSheet = importedSheet",
-                 "importedSheet = css_parser.css.CSSStyleSheet(media=self.media, ownerRule=self, title=self.name)"):
-        if top.count(need) != 1:
-            raise Refused("_setHref: statement `%s` not found exactly once at function level" % need)
-    gi = fn.body.index(g)
-    if not (top.index("importedSheet = css_parser.css.CSSStyleSheet(media=self.media, ownerRule=self, title=self.name)")
-            < gi and top.index("hrefFound = False") < gi < top.index("self._href = href")
-            and gi < top.index("self.hrefFound = hrefFound") and gi < top.index("self._styleSheet = importedSheet")):
-        raise Refused("_setHref: order of hrefFound reset / load / commit of href, hrefFound, styleSheet")
-    for st_ in fn.body[gi + 1:]:
-        if isinstance(st_, (ast.Try, ast.If, ast.Raise, ast.Return)):
-            raise Refused("_setHref: control flow after the load (line %d)" % st_.lineno)
+        raise Refused("_loadImport: else branch of the try")
+    expect(tr.orelse[0], "hrefFound = True", "_loadImport success flag")
+    body_ = nodoc(fn.body)
+    top = [ast.unparse(x) for x in body_]
+    if len(body_) != 4 or top[0] != "importedSheet = css_parser.css.CSSStyleSheet(media=media, ownerRule=self, title=title)" \
+            or top[1] != "hrefFound = False" or not isinstance(body_[2], ast.If) or top[3] != "return (importedSheet, hrefFound)":
+        raise Refused("_loadImport: expected new sheet, hrefFound = False, the load, return; found %r" % [x[:60] for x in top])
+    g = body_[2]
+    if g.orelse:
+        raise Refused("_loadImport: else branch of the load condition")
+    expect(g.test, "href and self.parentStyleSheet", "_loadImport load condition")
     join = "fullhref = urljoin(parentHref, href)"
     pre = [ast.unparse(x) for x in g.body if x is not tr]
     inside = [ast.unparse(x) for x in tr.body]
@@ -236,9 +288,9 @@ def sethref(out):
     elif join in inside:
         guarded = True
     else:
-        raise Refused("_setHref: urljoin call not found")
+        raise Refused("_loadImport: urljoin call not found")
     if not any(x.startswith("if parentHref is None:") for x in pre + inside):
-        raise Refused("_setHref: cwd fallback for a missing parent href not found")
+        raise Refused("_loadImport: cwd fallback for a missing parent href not found")
     out.append("Definition join_guarded : bool := %s." % ("true" if guarded else "false"))
     body = [x for x in tr.body if ast.unparse(x) != join and not ast.unparse(x).startswith(("parentHref =", "if parentHref is None"))]
     # optional guard against import cycles: walk the chain sheet -> ownerRule -> parentStyleSheet and refuse to load a
@@ -247,23 +299,23 @@ def sethref(out):
     gi = [i for i, x in enumerate(body) if isinstance(x, ast.While)]
     if gi:
         if len(gi) != 1 or gi[0] != 1 or not guarded or ast.unparse(body[0]) != "sheet = self.parentStyleSheet":
-            raise Refused("_setHref: a loop at an unexpected place in the try body")
+            raise Refused("_loadImport: a loop at an unexpected place in the try body")
         if [ast.unparse(x) for x in tr.body].index(join) > [ast.unparse(x) for x in tr.body].index("sheet = self.parentStyleSheet"):
-            raise Refused("_setHref: cycle guard before the urljoin call")
+            raise Refused("_loadImport: cycle guard before the urljoin call")
         w = body[1]
         if ast.unparse(w.test) != "sheet is not None" or w.orelse or len(w.body) != 3:
-            raise Refused("_setHref: cycle guard loop not understood")
+            raise Refused("_loadImport: cycle guard loop not understood")
         c = w.body[0]
         if not (isinstance(c, ast.If) and ast.unparse(c.test) == "sheet.href == fullhref" and not c.orelse and len(c.body) == 1
                 and isinstance(c.body[0], ast.Raise) and isinstance(c.body[0].exc, ast.Call)
                 and isinstance(c.body[0].exc.func, ast.Name)):
-            raise Refused("_setHref: cycle guard test not understood")
+            raise Refused("_loadImport: cycle guard test not understood")
         expect(w.body[1], "owner = sheet.ownerRule", "cycle guard step 1")
         expect(w.body[2], "sheet = owner.parentStyleSheet if owner is not None else None", "cycle guard step 2")
         guard_exn = exn_class(c.body[0].exc.func.id, "cycle guard")
         body = body[2:]
     elif any(ast.unparse(x) == "sheet = self.parentStyleSheet" for x in body):
-        raise Refused("_setHref: half a cycle guard")
+        raise Refused("_loadImport: half a cycle guard")
     out.append("Definition cycle_guard : bool := %s.   (* _setHref refuses a URL that a sheet of the import chain has *)"
                % ("true" if guard_exn else "false"))
     out.append("Definition raised_on_cycle : exn := %s." % (guard_exn or "E_OSError"))
@@ -273,15 +325,15 @@ def sethref(out):
             "importedSheet._setFetcher(self.parentStyleSheet._fetcher)",
             "importedSheet._setCssTextWithEncodingOverride(cssText, encodingOverride=encodingOverride, encoding=encoding)"]
     if len(shapes) != len(want):
-        raise Refused("_setHref: try body has %d statements: %r" % (len(shapes), shapes))
+        raise Refused("_loadImport: try body has %d statements: %r" % (len(shapes), shapes))
     for s_, w in zip(shapes, want):
         if w is not None and s_ != w:
-            raise Refused("_setHref: expected `%s`, found `%s`" % (w, s_))
+            raise Refused("_loadImport: expected `%s`, found `%s`" % (w, s_))
     none_if = body[1]
     if not (isinstance(none_if, ast.If) and ast.unparse(none_if.test) == "cssText is None" and len(none_if.body) == 1
             and isinstance(none_if.body[0], ast.Raise) and isinstance(none_if.body[0].exc, ast.Call)
             and isinstance(none_if.body[0].exc.func, ast.Name) and not none_if.orelse):
-        raise Refused("_setHref: `if cssText is None: raise ...` not found")
+        raise Refused("_loadImport: `if cssText is None: raise ...` not found")
     out.append("Definition raised_on_none : exn := %s." % exn_class(none_if.body[0].exc.func.id, "raise for missing text"))
     out.append("Definition split_enc (enctype : N) (used : enc) : enc * enc :=   (* (encodingOverride, encoding) *)\n  %s."
                % split_block([body[3]]))
